@@ -1,5 +1,6 @@
 import XzVerif.Proofs.Segment
 import XzVerif.Proofs.Tables
+import XzVerif.Proofs.Lzma1RoundTrip
 /-
   C06 — Classic .lzma round trip is lossless and the explicit-size contract is enforced.
 
@@ -7,8 +8,10 @@ import XzVerif.Proofs.Tables
   operations, every lc ≤ 8 / lp ≤ 4 / pb ≤ 4 (the theorem is parametric in `Props`), any
   dictionary capacity (`C06_body_roundtrip`); the properties byte of every one of the 225 valid
   configurations is encoded as the format says and decoded back (`C06_properties_byte`).
-  Stream-level theorems (header fields, the three end modes incl. size 0) are in
-  Proofs/Lzma1RoundTrip.lean when present.  The explicit-size contract of `lzma.Writer`
+  `C06_stream_roundtrip_*`: the whole classic stream of the model (13-byte header, body, optional
+  end marker) is read back by the reader model to exactly the content, in the three end modes
+  (end marker only; explicit size only, including size 0; both), for every lc ≤ 8, lp ≤ 4, pb ≤ 4,
+  every dictionary size and every reader configuration, with every byte of the stream consumed.  The explicit-size contract of `lzma.Writer`
   (`Write` refusing surplus bytes, `Close` failing when short) is bookkeeping of the Go writer
   that is not modelled; it is decided by the size-contract oracle of the check.  `_partial`.
 -/
@@ -33,5 +36,39 @@ theorem C06_properties_byte :
     Gen.propsCode.all (fun (lc, lp, pb, c) => Lzma2.propsOfByte c == some ⟨lc, lp, pb⟩) = true ∧
     Gen.propsCode.length = 225 := by
   refine ⟨Proofs.Tables.propsCode_table, ?_, ?_⟩ <;> decide +kernel
+
+/-- end marker, unknown size -/
+theorem C06_stream_roundtrip_marker (cfgCap : Nat) (hdr : Lzma1.Header) (ops : List RawOp)
+    (hlc : hdr.props.lc ≤ 8) (hlp : hdr.props.lp ≤ 4) (hpb : hdr.props.pb ≤ 4) (hdc : hdr.dictCap < 2 ^ 32)
+    (hsize : hdr.size = none) (hops : OpsOk {} (Lzma1.encHist hdr) ops) :
+    Lzma1.read cfgCap (Lzma1.encode hdr ops.toArray true) =
+      { out := (finalH {} (Lzma1.encHist hdr) ops).out, status := .eof, header := some hdr, marker := true,
+        ops := (ops ++ [Lzma1.eosOp]).toArray, consumed := (Lzma1.encode hdr ops.toArray true).size } :=
+  Lzma1.read_encode_unknown cfgCap hdr ops hlc hlp hpb hdc hsize hops
+
+/-- explicit size (any, including 0 with `ops = []`), no end marker -/
+theorem C06_stream_roundtrip_size (cfgCap : Nat) (hdr : Lzma1.Header) (ops : List RawOp)
+    (hlc : hdr.props.lc ≤ 8) (hlp : hdr.props.lp ≤ 4) (hpb : hdr.props.pb ≤ 4) (hdc : hdr.dictCap < 2 ^ 32)
+    (hops : OpsOk {} (Lzma1.encHist hdr) ops)
+    (hsize : hdr.size = some (finalH {} (Lzma1.encHist hdr) ops).out.size)
+    (h63 : (finalH {} (Lzma1.encHist hdr) ops).out.size < 2 ^ 63) :
+    Lzma1.read cfgCap (Lzma1.encode hdr ops.toArray false) =
+      { out := (finalH {} (Lzma1.encHist hdr) ops).out, status := .eof, header := some hdr, marker := false,
+        ops := ops.toArray, consumed := (Lzma1.encode hdr ops.toArray false).size } :=
+  Lzma1.read_encode_known cfgCap hdr ops hlc hlp hpb hdc hops hsize h63
+
+/-- explicit size and end marker -/
+theorem C06_stream_roundtrip_size_and_marker (cfgCap : Nat) (hdr : Lzma1.Header) (ops : List RawOp)
+    (hlc : hdr.props.lc ≤ 8) (hlp : hdr.props.lp ≤ 4) (hpb : hdr.props.pb ≤ 4) (hdc : hdr.dictCap < 2 ^ 32)
+    (hops : OpsOk {} (Lzma1.encHist hdr) ops)
+    (hsize : hdr.size = some (finalH {} (Lzma1.encHist hdr) ops).out.size)
+    (h63 : (finalH {} (Lzma1.encHist hdr) ops).out.size < 2 ^ 63) :
+    Lzma1.read cfgCap (Lzma1.encode hdr ops.toArray true) =
+      { out := (finalH {} (Lzma1.encHist hdr) ops).out, status := .eof, header := some hdr, marker := true,
+        ops := (ops ++ [Lzma1.eosOp]).toArray, consumed := (Lzma1.encode hdr ops.toArray true).size } :=
+  Lzma1.read_encode_known_marker cfgCap hdr ops hlc hlp hpb hdc hops hsize h63
+
+/-- non-vacuity: the empty stream with explicit size 0 (the F5/F6 case) -/
+example : OpsOk {} (Lzma1.encHist { props := ⟨3, 0, 2⟩, dictCap := 4096, size := some 0 }) [] := OpsOk.nil _ _
 
 end Props.C06
